@@ -30,7 +30,8 @@ def OpBool (r : Residual) : Prop := ∀ v, (interpret preq pes r).eval req es = 
     error-free does not error on the completion (this is where TPE leans on validation) -/
 def ErrFreeSound (r : Residual) : Prop := (interpret preq pes r).canError = false → ∃ v, (interpret preq pes r).eval req es = .ok v
 
-/-- the fragment of `interpret` whose soundness is proved -/
+/-- the residuals on which soundness of `interpret` is proved: EVERY constructor of `Residual` / `ResidualKind`; the
+    only side conditions sit on the `&&` / `||` nodes (`OpBool`, `ErrFreeSound`) -/
 inductive Frag : Residual → Prop
   | concrete (v ty) : Frag (.concrete v ty)
   | error (ty) : Frag (.error ty)
@@ -41,7 +42,10 @@ inductive Frag : Residual → Prop
       Frag (.part (.or l r) ty)
   | ite {c t e ty} : Frag c → Frag t → Frag e → Frag (.part (.ite c t e) ty)
   | unary {op a ty} : Frag a → Frag (.part (.unaryApp op a) ty)
-  | binary {op a b ty} : storeFreeOp op = true → Frag a → Frag b → Frag (.part (.binaryApp op a b) ty)
+  | binary {op a b ty} : Frag a → Frag b → Frag (.part (.binaryApp op a b) ty)
+  | call {fn args ty} : (∀ r, r ∈ args → Frag r) → Frag (.part (.call fn args) ty)
+  | set {xs ty} : (∀ r, r ∈ xs → Frag r) → Frag (.part (.set xs) ty)
+  | record {kvs ty} : (∀ kv, kv ∈ kvs → Frag kv.2) → Frag (.part (.record kvs) ty)
   | getAttr {e a ty} : Frag e → Frag (.part (.getAttr e a) ty)
   | hasAttr {e a ty} : Frag e → Frag (.part (.hasAttr e a) ty)
   | like {e p ty} : Frag e → Frag (.part (.like e p) ty)
